@@ -92,6 +92,13 @@ Definition local_try {S T} (t0 : T) (m : M T unit) : M S (bool * T) :=
              | PANIC => PANIC
              end.
 
+(* read-only code is written over the unit state and takes the shape as an argument ([R A]); [ro]
+   runs it inside a state monad: the state cannot change (Validate, String and the writer never modify
+   the file: property C14) *)
+Definition R (A : Type) := M unit A.
+Definition ro {S A} (m : R A) : M S A :=
+  fun s o => match m tt o with OK a _ o' => OK a s o' | ERR _ o' => ERR s o' | PANIC => PANIC end.
+
 (* `for _, x := range l { f x }` without write-back *)
 Fixpoint forM_ {S E} (l : list E) (f : E -> M S unit) : M S unit :=
   match l with [] => ret tt | x :: t => f x ;; forM_ t f end.
@@ -219,149 +226,149 @@ Definition adv_is_debit (c : nat) : bool := mem c [82; 84; 86; 88].
 Definition has05 (e : entry) : bool := match e_a05 e with [] => false | _ => true end.  (* entry.Addenda05 != nil *)
 
 (* ------------------------------------------------------------------ *)
-(* batch.go — state: one batch *)
+(* batch.go — the read-only functions take the batch as an argument *)
 
-Definition header_of : M batch header :=
-  b <- get ;; match b_header b with Some h => ret h | None => crash end.
-Definition need_control : M batch unit := b <- get ;; need (b_control b).
-Definition need_advcontrol : M batch unit := b <- get ;; need (b_adv b).
+Definition header_of (b : batch) : R header :=
+  match b_header b with Some h => ret h | None => crash end.
+Definition need_control (b : batch) : R unit := need (b_control b).
+Definition need_advcontrol (b : batch) : R unit := need (b_adv b).
 
 (* Batch.Error: builds a BatchError from b.Header.BatchNumber / StandardEntryClassCode *)
-Definition berr {A} : M batch A := _ <- header_of ;; fail.
+Definition berr {A} (b : batch) : R A := _ <- header_of b ;; fail.
 
 (* Batch.IsADV: batch.GetHeader().StandardEntryClassCode == ADV *)
-Definition is_adv : M batch bool := h <- header_of ;; ret (sec_eqb (h_sec h) ADV).
+Definition is_adv (b : batch) : R bool := h <- header_of b ;; ret (sec_eqb (h_sec h) ADV).
 
 (* `for _, entry := range batch.Entries { … entry.X … }`: the first field access dereferences the element *)
-Definition for_entries (body : entry -> M batch unit) : M batch unit :=
-  b <- get ;; forM_ (b_entries b) (fun oe => match oe with Some e => body e | None => crash end).
-Definition for_adv_entries (body : adv_entry -> M batch unit) : M batch unit :=
-  b <- get ;; forM_ (b_adventries b) (fun oe => match oe with Some e => body e | None => crash end).
+Definition for_entries (b : batch) (body : entry -> R unit) : R unit :=
+  forM_ (b_entries b) (fun oe => match oe with Some e => body e | None => crash end).
+Definition for_adv_entries (b : batch) (body : adv_entry -> R unit) : R unit :=
+  forM_ (b_adventries b) (fun oe => match oe with Some e => body e | None => crash end).
 
 (* isFieldInclusion *)
-Definition is_field_inclusion : M batch unit :=
-  _ <- header_of ;; check ;;                                   (* batch.Header.Validate() *)
-  adv <- is_adv ;;
+Definition is_field_inclusion (b : batch) : R unit :=
+  _ <- header_of b ;; check ;;                                   (* batch.Header.Validate() *)
+  adv <- is_adv b ;;
   if negb adv then
-    for_entries (fun e =>
+    for_entries b (fun e =>
       check ;;                                                 (* entry.Validate() *)
       when (e_a02 e) check ;;
       forM_ (e_a05 e) (fun p => need p ;; check) ;;            (* addenda05.Validate(): receiver dereferenced *)
       when (e_a98 e) check ;; when (e_a98r e) check ;; when (e_a99 e) check ;;
       when (e_a99d e) check ;; when (e_a99c e) check) ;;
-    need_control ;; check                                      (* batch.Control.Validate() *)
+    need_control b ;; check                                      (* batch.Control.Validate() *)
   else
-    for_adv_entries (fun a => check ;; when (ae_a99 a) check) ;;
-    need_advcontrol ;; check.                                  (* batch.ADVControl.Validate() *)
+    for_adv_entries b (fun a => check ;; when (ae_a99 a) check) ;;
+    need_advcontrol b ;; check.                                  (* batch.ADVControl.Validate() *)
 
 (* isBatchEntryCount (entry.addendaCount tests every pointer it reads) *)
-Definition is_batch_entry_count : M batch unit :=
-  adv <- is_adv ;;
+Definition is_batch_entry_count (b : batch) : R unit :=
+  adv <- is_adv b ;;
   if negb adv then
-    for_entries (fun _ => ret tt) ;; need_control ;;
-    eq <- flip ;; if eq then ret tt else (u <- flip ;; if u then berr else ret tt)
+    for_entries b (fun _ => ret tt) ;; need_control b ;;
+    eq <- flip ;; if eq then ret tt else (u <- flip ;; if u then berr b else ret tt)
   else
-    for_adv_entries (fun _ => ret tt) ;; need_advcontrol ;;
-    eq <- flip ;; if eq then ret tt else (u <- flip ;; if u then berr else ret tt).
+    for_adv_entries b (fun _ => ret tt) ;; need_advcontrol b ;;
+    eq <- flip ;; if eq then ret tt else (u <- flip ;; if u then berr b else ret tt).
 
-Definition is_sequence_ascending : M batch unit :=
-  adv <- is_adv ;;
-  when (negb adv) (for_entries (fun _ => c <- flip ;; if c then (a <- flip ;; if a then ret tt else berr) else ret tt)).
+Definition is_sequence_ascending (b : batch) : R unit :=
+  adv <- is_adv b ;;
+  when (negb adv) (for_entries b (fun _ => c <- flip ;; if c then (a <- flip ;; if a then ret tt else berr b) else ret tt)).
 
-Definition is_batch_amount : M batch unit :=
-  adv <- is_adv ;;
+Definition is_batch_amount (b : batch) : R unit :=
+  adv <- is_adv b ;;
   if negb adv then
-    for_entries (fun _ => ret tt) ;;                           (* calculateBatchAmounts *)
-    need_control ;; (d <- flip ;; if d then ret tt else berr) ;;
-    need_control ;; (c <- flip ;; if c then ret tt else berr)
+    for_entries b (fun _ => ret tt) ;;                           (* calculateBatchAmounts *)
+    need_control b ;; (d <- flip ;; if d then ret tt else berr b) ;;
+    need_control b ;; (c <- flip ;; if c then ret tt else berr b)
   else
-    for_adv_entries (fun _ => ret tt) ;;
-    need_advcontrol ;; (d <- flip ;; if d then ret tt else berr) ;;
-    need_advcontrol ;; (c <- flip ;; if c then ret tt else berr).
+    for_adv_entries b (fun _ => ret tt) ;;
+    need_advcontrol b ;; (d <- flip ;; if d then ret tt else berr b) ;;
+    need_advcontrol b ;; (c <- flip ;; if c then ret tt else berr b).
 
-Definition calculate_entry_hash : M batch unit :=
-  adv <- is_adv ;;
-  if negb adv then for_entries (fun _ => ret tt) else for_adv_entries (fun _ => ret tt).
+Definition calculate_entry_hash (b : batch) : R unit :=
+  adv <- is_adv b ;;
+  if negb adv then for_entries b (fun _ => ret tt) else for_adv_entries b (fun _ => ret tt).
 
-Definition is_entry_hash : M batch unit :=
-  calculate_entry_hash ;;
-  adv <- is_adv ;;
-  if negb adv then need_control ;; (c <- flip ;; if c then ret tt else berr)
-  else need_advcontrol ;; (c <- flip ;; if c then ret tt else berr).
+Definition is_entry_hash (b : batch) : R unit :=
+  calculate_entry_hash b ;;
+  adv <- is_adv b ;;
+  if negb adv then need_control b ;; (c <- flip ;; if c then ret tt else berr b)
+  else need_advcontrol b ;; (c <- flip ;; if c then ret tt else berr b).
 
-Definition is_originator_dne : M batch unit :=
-  h <- header_of ;;
+Definition is_originator_dne (b : batch) : R unit :=
+  h <- header_of b ;;
   g <- flip ;;                                                  (* true: OriginatorStatusCode == 2 *)
   when (negb g && sec_eqb (h_sec h) DNE)
-    (for_entries (fun _ => c <- flip ;; if c then ret tt else berr)).
+    (for_entries b (fun _ => c <- flip ;; if c then ret tt else berr b)).
 
-Definition is_trace_number_odfi : M batch unit :=
+Definition is_trace_number_odfi (b : batch) : R unit :=
   by_ <- flip ;;                                                (* true: BypassOriginValidation not set *)
   if negb by_ then ret tt else
-  _ <- header_of ;;                                             (* batch.Header.ODFIIdentificationField() *)
-  for_entries (fun _ => c <- flip ;; if c then ret tt else berr).
+  _ <- header_of b ;;                                             (* batch.Header.ODFIIdentificationField() *)
+  for_entries b (fun _ => c <- flip ;; if c then ret tt else berr b).
 
-Definition is_addenda_sequence : M batch unit :=
-  for_entries (fun e =>
-    when (e_a02 e) (c <- flip ;; if c then ret tt else berr) ;;
+Definition is_addenda_sequence (b : batch) : R unit :=
+  for_entries b (fun e =>
+    when (e_a02 e) (c <- flip ;; if c then ret tt else berr b) ;;
     when (has05 e)
-      ((c <- flip ;; if c then ret tt else berr) ;;
-       forM_ (e_a05 e) (fun p => need p ;; (c <- flip ;; if c then ret tt else berr) ;;
-                                           (c <- flip ;; if c then ret tt else berr))) ;;
-    when (e_a98 e) (c <- flip ;; if c then ret tt else berr) ;;
-    when (e_a98r e) (c <- flip ;; if c then ret tt else berr) ;;
-    when (e_a99 e) (c <- flip ;; if c then ret tt else berr) ;;
-    when (e_a99d e) (c <- flip ;; if c then ret tt else berr) ;;
-    when (e_a99c e) (c <- flip ;; if c then ret tt else berr)).
+      ((c <- flip ;; if c then ret tt else berr b) ;;
+       forM_ (e_a05 e) (fun p => need p ;; (c <- flip ;; if c then ret tt else berr b) ;;
+                                           (c <- flip ;; if c then ret tt else berr b))) ;;
+    when (e_a98 e) (c <- flip ;; if c then ret tt else berr b) ;;
+    when (e_a98r e) (c <- flip ;; if c then ret tt else berr b) ;;
+    when (e_a99 e) (c <- flip ;; if c then ret tt else berr b) ;;
+    when (e_a99d e) (c <- flip ;; if c then ret tt else berr b) ;;
+    when (e_a99c e) (c <- flip ;; if c then ret tt else berr b)).
 
-(* isCategory: batch.GetEntries()[0].Category, then every entry but NOC must have that category *)
-Definition is_category : M batch unit :=
-  adv <- is_adv ;;
-  b <- get ;;
+(* isCategory: batch.GetEntries()[0].Category (an empty list is an error since fix 7f797c26; before it
+   the index panicked for a batch that only holds entries of the other kind), then every entry but NOC
+   must have that category *)
+Definition is_category (b : batch) : R unit :=
+  adv <- is_adv b ;;
   if negb adv then
     match b_entries b with
-    | [] => crash                                              (* index out of range *)
+    | [] => berr b
     | None :: _ => crash
     | Some e0 :: _ =>
         when (1 <? length (b_entries b))
-          (for_entries (fun e => if cat_eqb (e_cat e) CNOC then ret tt
-                                 else if cat_eqb (e_cat e) (e_cat e0) then ret tt else berr))
+          (for_entries b (fun e => if cat_eqb (e_cat e) CNOC then ret tt
+                                 else if cat_eqb (e_cat e) (e_cat e0) then ret tt else berr b))
     end
   else
     match b_adventries b with
-    | [] => crash
+    | [] => berr b
     | None :: _ => crash
     | Some e0 :: _ =>
         when (1 <? length (b_adventries b))
-          (for_adv_entries (fun e => if cat_eqb (ae_cat e) (ae_cat e0) then ret tt else berr))
+          (for_adv_entries b (fun e => if cat_eqb (ae_cat e) (ae_cat e0) then ret tt else berr b))
     end.
 
 (* verify *)
-Definition verify : M batch unit :=
-  b <- get ;;
-  (match b_entries b, b_adventries b with [], [] => berr | _, _ => ret tt end) ;;
-  (fun s o => match is_field_inclusion s o with
-              | ERR s' o' => (berr : M batch unit) s' o'        (* batch.Error("FieldError", err) *)
+Definition verify (b : batch) : R unit :=
+  (match b_entries b, b_adventries b with [], [] => berr b | _, _ => ret tt end) ;;
+  (fun s o => match is_field_inclusion b s o with
+              | ERR s' o' => (berr b : R unit) s' o'            (* batch.Error("FieldError", err) *)
               | r => r end) ;;
-  adv <- is_adv ;;
+  adv <- is_adv b ;;
   (if negb adv then
      (u <- flip ;;                                              (* true: UnequalServiceClassCode not set *)
-      when u (_ <- header_of ;; need_control ;; (c <- flip ;; if c then ret tt else berr))) ;;
-     _ <- header_of ;; need_control ;; (c <- flip ;; if c then ret tt else berr) ;;   (* CompanyIdentification *)
-     _ <- header_of ;; need_control ;; (c <- flip ;; if c then ret tt else berr) ;;   (* ODFIIdentification *)
-     _ <- header_of ;; need_control ;; (c <- flip ;; if c then ret tt else berr)      (* BatchNumber *)
+      when u (_ <- header_of b ;; need_control b ;; (c <- flip ;; if c then ret tt else berr b))) ;;
+     _ <- header_of b ;; need_control b ;; (c <- flip ;; if c then ret tt else berr b) ;;   (* CompanyIdentification *)
+     _ <- header_of b ;; need_control b ;; (c <- flip ;; if c then ret tt else berr b) ;;   (* ODFIIdentification *)
+     _ <- header_of b ;; need_control b ;; (c <- flip ;; if c then ret tt else berr b)      (* BatchNumber *)
    else
      (u <- flip ;;
-      when u (_ <- header_of ;; need_advcontrol ;; (c <- flip ;; if c then ret tt else berr))) ;;
-     _ <- header_of ;; need_advcontrol ;; (c <- flip ;; if c then ret tt else berr) ;;
-     _ <- header_of ;; need_advcontrol ;; (c <- flip ;; if c then ret tt else berr)) ;;
-  is_batch_entry_count ;;
-  (t <- flip ;; when t is_sequence_ascending) ;;                (* true: CustomTraceNumbers not set *)
-  is_batch_amount ;;
-  is_entry_hash ;;
-  is_originator_dne ;;
-  (t <- flip ;; when t (is_trace_number_odfi ;; is_addenda_sequence)) ;;
-  is_category.
+      when u (_ <- header_of b ;; need_advcontrol b ;; (c <- flip ;; if c then ret tt else berr b))) ;;
+     _ <- header_of b ;; need_advcontrol b ;; (c <- flip ;; if c then ret tt else berr b) ;;
+     _ <- header_of b ;; need_advcontrol b ;; (c <- flip ;; if c then ret tt else berr b)) ;;
+  is_batch_entry_count b ;;
+  (t <- flip ;; when t (is_sequence_ascending b)) ;;                (* true: CustomTraceNumbers not set *)
+  is_batch_amount b ;;
+  is_entry_hash b ;;
+  is_originator_dne b ;;
+  (t <- flip ;; when t (is_trace_number_odfi b ;; is_addenda_sequence b)) ;;
+  is_category b.
 
 (* addendaFieldInclusion{,Forward,NOC,Return} *)
 Definition sec_group (s : sec) : nat :=
@@ -372,42 +379,42 @@ Definition sec_group (s : sec) : nat :=
   | _ => 0
   end.
 
-Definition inclusion_forward (e : entry) : M batch unit :=
-  h <- header_of ;;
+Definition inclusion_forward (b : batch) (e : entry) : R unit :=
+  h <- header_of b ;;
   (match sec_group (h_sec h) with
-   | 1 => if negb (e_a02 e) then berr else if has05 e then berr else ret tt
-   | 2 => if e_a02 e then berr else ret tt
-   | 3 => if e_a02 e then berr else if has05 e then berr else ret tt
+   | 1 => if negb (e_a02 e) then berr b else if has05 e then berr b else ret tt
+   | 2 => if e_a02 e then berr b else ret tt
+   | 3 => if e_a02 e then berr b else if has05 e then berr b else ret tt
    | _ => ret tt
    end) ;;
-  when (negb (sec_eqb (h_sec h) COR)) (if e_a98 e || e_a98r e then berr else ret tt) ;;
-  if e_a99 e then berr else ret tt.
+  when (negb (sec_eqb (h_sec h) COR)) (if e_a98 e || e_a98r e then berr b else ret tt) ;;
+  if e_a99 e then berr b else ret tt.
 
-Definition inclusion_noc (e : entry) : M batch unit :=
-  if e_a02 e then berr else
-  if has05 e then berr else
-  h <- header_of ;;
-  when (negb (sec_eqb (h_sec h) COR)) (if e_a98 e || e_a98r e then berr else ret tt) ;;
-  if e_a99 e then berr else ret tt.
+Definition inclusion_noc (b : batch) (e : entry) : R unit :=
+  if e_a02 e then berr b else
+  if has05 e then berr b else
+  h <- header_of b ;;
+  when (negb (sec_eqb (h_sec h) COR)) (if e_a98 e || e_a98r e then berr b else ret tt) ;;
+  if e_a99 e then berr b else ret tt.
 
-Definition inclusion_return (e : entry) : M batch unit :=
-  if e_a02 e then berr else
-  when (has05 e) (h <- header_of ;; if sec_eqb (h_sec h) CTX then ret tt else berr) ;;
-  if e_a98 e || e_a98r e then berr else
+Definition inclusion_return (b : batch) (e : entry) : R unit :=
+  if e_a02 e then berr b else
+  when (has05 e) (h <- header_of b ;; if sec_eqb (h_sec h) CTX then ret tt else berr b) ;;
+  if e_a98 e || e_a98r e then berr b else
   if negb (e_a99 e) && negb (e_a99d e) && negb (e_a99c e)
-  then (c <- flip ;; if c then ret tt else berr)                (* IndividualName == "OFFSET" *)
+  then (c <- flip ;; if c then ret tt else berr b)                (* IndividualName == "OFFSET" *)
   else ret tt.
 
-Definition addenda_inclusion (e : entry) : M batch unit :=
+Definition addenda_inclusion (b : batch) (e : entry) : R unit :=
   match e_cat e with
-  | CFwd => inclusion_forward e
-  | CNOC => inclusion_noc e
-  | CRet | CDis | CCon => inclusion_return e
+  | CFwd => inclusion_forward b e
+  | CNOC => inclusion_noc b e
+  | CRet | CDis | CCon => inclusion_return b e
   | COther => ret tt
   end.
 
 (* ValidAmountForCodes *)
-Definition valid_amount (e : entry) : M batch unit :=
+Definition valid_amount (b : batch) (e : entry) : R unit :=
   c <- flip ;;                                                  (* true: AllowInvalidAmounts not set *)
   if negb c then ret tt else
   if e_a98 e || e_a98r e then check else
@@ -418,14 +425,14 @@ Definition valid_amount (e : entry) : M batch unit :=
   if nz then ret tt else
   na <- flip ;;                                                 (* true: AllowZeroEntryAmount not set *)
   if negb na then ret tt else
-  _ <- header_of ;; check.                                      (* switch batch.Header.StandardEntryClassCode *)
+  _ <- header_of b ;; check.                                      (* switch batch.Header.StandardEntryClassCode *)
 
 (* ValidTranCodeForServiceClassCode *)
-Definition valid_trancode (e : entry) : M batch unit :=
-  (c <- flip ;; if c then ret tt else berr) ;;                  (* ADV transaction codes *)
+Definition valid_trancode (b : batch) (e : entry) : R unit :=
+  (c <- flip ;; if c then ret tt else berr b) ;;                  (* ADV transaction codes *)
   c <- flip ;;                                                  (* true: no CheckTransactionCode override *)
   if negb c then ret tt else
-  _ <- header_of ;; (c <- flip ;; if c then ret tt else berr).
+  _ <- header_of b ;; (c <- flip ;; if c then ret tt else berr b).
 
 (* service class codes a batch type rejects before it looks at its entries *)
 Definition scc_allowed (s : sec) (c : scc) : bool :=
@@ -437,104 +444,101 @@ Definition scc_allowed (s : sec) (c : scc) : bool :=
   end.
 
 (* Batch<SEC>.Validate for the standard types (everything but ADV) *)
-Definition validate_std (s : sec) : M batch unit :=
-  verify ;;
+Definition validate_std (s : sec) (b : batch) : R unit :=
+  verify b ;;
   when (sec_eqb s COR)                                          (* isAddenda98 *)
-    (for_entries (fun e => if negb (e_a98 e) && negb (e_a98r e) then berr else ret tt)) ;;
-  h <- header_of ;;
-  (if sec_eqb (h_sec h) s then ret tt else berr) ;;
+    (for_entries b (fun e => if negb (e_a98 e) && negb (e_a98r e) then berr b else ret tt)) ;;
+  h <- header_of b ;;
+  (if sec_eqb (h_sec h) s then ret tt else berr b) ;;
   when (sec_eqb s COR)
-    (need_control ;; (c <- flip ;; if c then ret tt else berr) ;;
-     need_control ;; (c <- flip ;; if c then ret tt else berr)) ;;
-  (if scc_allowed s (h_scc h) then ret tt else berr) ;;
-  (c <- flip ;; if c then ret tt else berr) ;;                  (* CompanyEntryDescription (ENR, RCK) *)
-  for_entries (fun e =>
-    (c <- flip ;; if c then ret tt else berr) ;;                (* type specific checks on the entry *)
-    valid_amount e ;;
-    valid_trancode e ;;
-    addenda_inclusion e ;;
+    (need_control b ;; (c <- flip ;; if c then ret tt else berr b) ;;
+     need_control b ;; (c <- flip ;; if c then ret tt else berr b)) ;;
+  (if scc_allowed s (h_scc h) then ret tt else berr b) ;;
+  (c <- flip ;; if c then ret tt else berr b) ;;                  (* CompanyEntryDescription (ENR, RCK) *)
+  for_entries b (fun e =>
+    (c <- flip ;; if c then ret tt else berr b) ;;                (* type specific checks on the entry *)
+    valid_amount b e ;;
+    valid_trancode b e ;;
+    addenda_inclusion b e ;;
     when (match s with MTE | POS | SHR => cat_eqb (e_cat e) CFwd | _ => false end)
-      (need (e_a02 e) ;; (c <- flip ;; if c then ret tt else berr)) ;;   (* entry.Addenda02.TerminalState *)
-    (c <- flip ;; if c then ret tt else berr)).
+      (need (e_a02 e) ;; (c <- flip ;; if c then ret tt else berr b)) ;;   (* entry.Addenda02.TerminalState *)
+    (c <- flip ;; if c then ret tt else berr b)).
 
 (* BatchADV.Validate *)
-Definition validate_adv : M batch unit :=
-  h <- header_of ;;
-  (if sec_eqb (h_sec h) ADV then ret tt else berr) ;;
-  (if scc_eqb (h_scc h) Advices then ret tt else berr) ;;
-  (c <- flip ;; if c then ret tt else berr) ;;                  (* OriginatorStatusCode *)
-  verify ;;
-  for_adv_entries (fun a =>
+Definition validate_adv (b : batch) : R unit :=
+  h <- header_of b ;;
+  (if sec_eqb (h_sec h) ADV then ret tt else berr b) ;;
+  (if scc_eqb (h_scc h) Advices then ret tt else berr b) ;;
+  (c <- flip ;; if c then ret tt else berr b) ;;                  (* OriginatorStatusCode *)
+  verify b ;;
+  for_adv_entries b (fun a =>
     when (cat_eqb (ae_cat a) CFwd)
-      ((c <- flip ;; if c then ret tt else berr) ;; if ae_a99 a then berr else ret tt)).
+      ((c <- flip ;; if c then ret tt else berr b) ;; if ae_a99 a then berr b else ret tt)).
 
 (* Batcher.Validate by dynamic type; Batch.Validate returns an error *)
-Definition batch_validate : M batch unit :=
-  b <- get ;;
+Definition batch_validate (b : batch) : R unit :=
   match b_kind b with
   | KBase => fail
-  | KSec ADV => validate_adv
-  | KSec s => validate_std s
+  | KSec ADV => validate_adv b
+  | KSec s => validate_std s b
   end.
+
+(* ------------------------------------------------------------------ *)
+(* batch.go — the functions that modify the batch; state: the batch *)
 
 (* upsertOffsets; the offset entries it appends are NewEntryDetail values with the category of Entries[0] *)
 Definition offset_entry (c : cat) (code : nat) : option entry := Some (mkentry c code false false false false false false []).
 
-Fixpoint remove_offsets (l : list (option entry)) : M batch (list (option entry)) :=
+Fixpoint remove_offsets (b : batch) (l : list (option entry)) : R (list (option entry)) :=
   match l with
   | [] => ret []
   | None :: _ => crash                                          (* b.Entries[i].IndividualName *)
   | Some e :: t =>
       keep <- flip ;;                                           (* true: not an OFFSET entry *)
-      if keep then (r <- remove_offsets t ;; ret (Some e :: r))
-      else need_control ;; remove_offsets t                     (* b.Control.… -= …; entry removed *)
+      if keep then (r <- remove_offsets b t ;; ret (Some e :: r))
+      else need_control b ;; remove_offsets b t                 (* b.Control.… -= …; entry removed *)
   end.
 
 Definition upsert_offsets : M batch unit :=
   b <- get ;;
   if negb (b_offset b) then ret tt else
-  adv <- is_adv ;;
+  adv <- ro (is_adv b) ;;
   if adv then fail else
   check ;;                                                      (* CheckRoutingNumber(b.offset.RoutingNumber) *)
-  es <- remove_offsets (b_entries b) ;;
-  modify (set_entries es) ;;
+  es <- ro (remove_offsets b (b_entries b)) ;;
+  put (set_entries es b) ;;
   check ;;                                                      (* b.offset.AccountType.validate() *)
   (* createOffsetEntryDetail: batch.Entries[0].Category under len > 0; lastTraceNumber: entries[len-1].TraceNumber *)
   c0 <- (match es with [] => ret CFwd | None :: _ => crash | Some e :: _ => ret (e_cat e) end) ;;
   (match last es (Some (mkentry CFwd 0 false false false false false false [])) with None => crash | Some _ => ret tt end) ;;
-  need_control ;;                                               (* debitED.Amount = b.Control.TotalCreditEntryDollarAmount *)
+  need (b_control b) ;;                                         (* debitED.Amount = b.Control.TotalCreditEntryDollarAmount *)
   hasD <- flip ;;                                               (* true: no debit offset needed (amount 0) *)
-  need_control ;;
   hasC <- flip ;;
-  when (negb hasD) (modify (fun b => set_entries (b_entries b ++ [offset_entry c0 27]) b) ;; need_control) ;;
-  when (negb hasC) (modify (fun b => set_entries (b_entries b ++ [offset_entry c0 22]) b) ;; need_control) ;;
-  h <- header_of ;;                                             (* b.Header.ServiceClassCode = MixedDebitsAndCredits *)
-  modify (set_header (Some (mkheader (h_sec h) Mixed))) ;;
-  need_control ;;
-  calculate_entry_hash.
+  let es1 := if hasD then es else es ++ [offset_entry c0 27] in
+  let es2 := if hasC then es1 else es1 ++ [offset_entry c0 22] in
+  h <- ro (header_of b) ;;                                      (* b.Header.ServiceClassCode = MixedDebitsAndCredits *)
+  let b' := set_header (Some (mkheader (h_sec h) Mixed)) (set_entries es2 b) in
+  put b' ;;
+  ro (calculate_entry_hash b').
 
 (* build *)
 Definition build : M batch unit :=
-  _ <- header_of ;; check ;;                                    (* batch.Header.Validate() *)
   b <- get ;;
-  (match b_entries b, b_adventries b with [], [] => berr | _, _ => ret tt end) ;;
-  adv <- is_adv ;;
+  ro (_ <- header_of b ;; check) ;;                             (* batch.Header.Validate() *)
+  ro (match b_entries b, b_adventries b with [], [] => berr b | _, _ => ret tt end) ;;
+  adv <- ro (is_adv b) ;;
   (if negb adv then
-     for_entries (fun e =>
+     ro (for_entries b (fun e =>
        check ;;                                                 (* Atoi(entry.TraceNumberField()[:8]) *)
-       _ <- header_of ;; check ;;                               (* batch.Header.ODFIIdentificationField() *)
-       (d <- flip ;; when (negb d) (_ <- header_of ;; ret tt)) ;;   (* entry.SetTraceNumber(batch.Header.ODFIIdentification, …) *)
-       forM_ (e_a05 e) (fun p => need p)) ;;                    (* a.SequenceNumber = addendaSeq *)
-     _ <- header_of ;;                                          (* bc.… = batch.Header.… *)
-     calculate_entry_hash ;;
-     for_entries (fun _ => ret tt) ;;                           (* calculateBatchAmounts *)
-     modify (set_control true)
+       _ <- header_of b ;; check ;;                             (* batch.Header.ODFIIdentificationField() *)
+       (d <- flip ;; when (negb d) (_ <- header_of b ;; ret tt)) ;;   (* entry.SetTraceNumber(batch.Header.ODFIIdentification, …) *)
+       forM_ (e_a05 e) (fun p => need p))) ;;                   (* a.SequenceNumber = addendaSeq *)
+     ro (_ <- header_of b ;; calculate_entry_hash b ;; for_entries b (fun _ => ret tt)) ;;
+     put (set_control true b)
    else
-     for_adv_entries (fun _ => c <- flip ;; if c then ret tt else berr) ;;   (* seq > 9999 *)
-     _ <- header_of ;;
-     calculate_entry_hash ;;
-     for_adv_entries (fun _ => ret tt) ;;
-     modify (set_adv true)) ;;
+     ro (for_adv_entries b (fun _ => c <- flip ;; if c then ret tt else berr b)) ;;   (* seq > 9999 *)
+     ro (_ <- header_of b ;; calculate_entry_hash b ;; for_adv_entries b (fun _ => ret tt)) ;;
+     put (set_adv true b)) ;;
   upsert_offsets.
 
 (* Batcher.Create by dynamic type *)
@@ -542,39 +546,38 @@ Definition batch_create : M batch unit :=
   b <- get ;;
   match b_kind b with
   | KBase => fail
-  | _ => build ;; batch_validate
+  | _ => build ;; b' <- get ;; ro (batch_validate b')
   end.
 
 (* Batch.Category: reads entry.Category of the entries until a Return / NOC is found *)
-Definition batch_category : M batch unit :=
-  b <- get ;;
-  (fix go (l : list (option entry)) : M batch unit :=
+Definition batch_category (b : batch) : R unit :=
+  (fix go (l : list (option entry)) : R unit :=
      match l with
-     | [] => for_adv_entries (fun _ => ret tt)
+     | [] => for_adv_entries b (fun _ => ret tt)
      | None :: _ => crash
      | Some e :: t => match e_cat e with CRet | CNOC => ret tt | _ => go t end
      end) (b_entries b).
 
 (* ------------------------------------------------------------------ *)
-(* iatBatch.go — state: one IAT batch *)
+(* iatBatch.go *)
 
-Definition ih_of : M iat_batch iat_header :=
-  b <- get ;; match ib_header b with Some h => ret h | None => crash end.
-Definition need_ibcontrol : M iat_batch unit := b <- get ;; need (ib_control b).
-Definition iberr {A} : M iat_batch A := _ <- ih_of ;; fail.     (* IATBatch.Error reads iatBatch.Header.… *)
-Definition for_iat_entries (body : iat_entry -> M iat_batch unit) : M iat_batch unit :=
-  b <- get ;; forM_ (ib_entries b) (fun oe => match oe with Some e => body e | None => crash end).
+Definition ih_of (b : iat_batch) : R iat_header :=
+  match ib_header b with Some h => ret h | None => crash end.
+Definition need_ibcontrol (b : iat_batch) : R unit := need (ib_control b).
+Definition iberr {A} (b : iat_batch) : R A := _ <- ih_of b ;; fail.     (* IATBatch.Error reads iatBatch.Header.… *)
+Definition for_iat_entries (b : iat_batch) (body : iat_entry -> R unit) : R unit :=
+  forM_ (ib_entries b) (fun oe => match oe with Some e => body e | None => crash end).
 
 Definition ie_mandatory (e : iat_entry) : bool :=
   ie_a10 e && ie_a11 e && ie_a12 e && ie_a13 e && ie_a14 e && ie_a15 e && ie_a16 e.
 
 (* addendaFieldInclusion: fieldError, not iatBatch.Error *)
-Definition iat_addenda_inclusion (e : iat_entry) : M iat_batch unit :=
+Definition iat_addenda_inclusion (e : iat_entry) : R unit :=
   if ie_a98 e then ret tt else if ie_mandatory e then ret tt else fail.
 
-Definition iat_is_field_inclusion : M iat_batch unit :=
-  _ <- ih_of ;; check ;;                                        (* iatBatch.Header.Validate() *)
-  for_iat_entries (fun e =>
+Definition iat_is_field_inclusion (b : iat_batch) : R unit :=
+  _ <- ih_of b ;; check ;;                                      (* iatBatch.Header.Validate() *)
+  for_iat_entries b (fun e =>
     check ;;                                                    (* entry.Validate() *)
     iat_addenda_inclusion e ;;
     check ;;                                                    (* Addenda10..16.Validate(): nil receivers accepted *)
@@ -582,36 +585,34 @@ Definition iat_is_field_inclusion : M iat_batch unit :=
     forM_ (ie_a18 e) (fun p => need p ;; check) ;;
     when (cat_eqb (ie_cat e) CNOC) (if ie_a98 e then check else fail) ;;
     when (cat_eqb (ie_cat e) CRet) (if ie_a99 e then check else fail)) ;;
-  need_ibcontrol ;; check.
+  need_ibcontrol b ;; check.
 
-Definition iat_is_batch_entry_count : M iat_batch unit :=
-  for_iat_entries (fun _ => ret tt) ;;
-  need_ibcontrol ;;
-  eq <- flip ;; if eq then ret tt else (u <- flip ;; if u then iberr else ret tt).
+Definition iat_is_batch_entry_count (b : iat_batch) : R unit :=
+  for_iat_entries b (fun _ => ret tt) ;;
+  need_ibcontrol b ;;
+  eq <- flip ;; if eq then ret tt else (u <- flip ;; if u then iberr b else ret tt).
 
-Definition iat_is_addenda_sequence : M iat_batch unit :=
-  b <- get ;;
-  (fix go (l : list (option iat_entry)) : M iat_batch unit :=
-     match l with
-     | [] => ret tt
-     | None :: _ => crash
-     | Some e :: t =>
-         (c <- flip ;; if c then ret tt else iberr) ;;          (* AddendaRecordIndicator != 1 *)
-         if ie_a98 e then ret tt else                           (* isCorrection: return nil *)
-         need (ie_a10 e) ;; (c <- flip ;; if c then ret tt else iberr) ;;
-         need (ie_a11 e) ;; (c <- flip ;; if c then ret tt else iberr) ;;
-         need (ie_a12 e) ;; (c <- flip ;; if c then ret tt else iberr) ;;
-         need (ie_a13 e) ;; (c <- flip ;; if c then ret tt else iberr) ;;
-         need (ie_a14 e) ;; (c <- flip ;; if c then ret tt else iberr) ;;
-         need (ie_a15 e) ;; (c <- flip ;; if c then ret tt else iberr) ;;
-         need (ie_a16 e) ;; (c <- flip ;; if c then ret tt else iberr) ;;
-         forM_ (ie_a17 e) (fun p => need p ;; (c <- flip ;; if c then ret tt else iberr)) ;;
-         forM_ (ie_a18 e) (fun p => need p ;; (c <- flip ;; if c then ret tt else iberr)) ;;
-         go t
-     end) (ib_entries b).
+Fixpoint iat_addenda_sequence_loop (b : iat_batch) (l : list (option iat_entry)) : R unit :=
+  match l with
+  | [] => ret tt
+  | None :: _ => crash
+  | Some e :: t =>
+      (c <- flip ;; if c then ret tt else iberr b) ;;           (* AddendaRecordIndicator != 1 *)
+      if ie_a98 e then ret tt else                              (* isCorrection: return nil *)
+      need (ie_a10 e) ;; (c <- flip ;; if c then ret tt else iberr b) ;;
+      need (ie_a11 e) ;; (c <- flip ;; if c then ret tt else iberr b) ;;
+      need (ie_a12 e) ;; (c <- flip ;; if c then ret tt else iberr b) ;;
+      need (ie_a13 e) ;; (c <- flip ;; if c then ret tt else iberr b) ;;
+      need (ie_a14 e) ;; (c <- flip ;; if c then ret tt else iberr b) ;;
+      need (ie_a15 e) ;; (c <- flip ;; if c then ret tt else iberr b) ;;
+      need (ie_a16 e) ;; (c <- flip ;; if c then ret tt else iberr b) ;;
+      forM_ (ie_a17 e) (fun p => need p ;; (c <- flip ;; if c then ret tt else iberr b)) ;;
+      forM_ (ie_a18 e) (fun p => need p ;; (c <- flip ;; if c then ret tt else iberr b)) ;;
+      iat_addenda_sequence_loop b t
+  end.
+Definition iat_is_addenda_sequence (b : iat_batch) : R unit := iat_addenda_sequence_loop b (ib_entries b).
 
-Definition iat_is_category : M iat_batch unit :=
-  b <- get ;;
+Definition iat_is_category (b : iat_batch) : R unit :=
   match ib_entries b with
   | [] => crash
   | None :: _ => crash
@@ -619,62 +620,61 @@ Definition iat_is_category : M iat_batch unit :=
       forM_ t (fun oe => match oe with
                          | None => crash
                          | Some e => if cat_eqb (ie_cat e) CNOC then ret tt
-                                     else if cat_eqb (ie_cat e) (ie_cat e0) then ret tt else iberr
+                                     else if cat_eqb (ie_cat e) (ie_cat e0) then ret tt else iberr b
                          end)
   end.
 
-Definition iat_verify : M iat_batch unit :=
-  b <- get ;;
-  (match ib_entries b with [] => iberr | _ => ret tt end) ;;
-  (fun s o => match iat_is_field_inclusion s o with
-              | ERR s' o' => (iberr : M iat_batch unit) s' o'
+Definition iat_verify (b : iat_batch) : R unit :=
+  (match ib_entries b with [] => iberr b | _ => ret tt end) ;;
+  (fun s o => match iat_is_field_inclusion b s o with
+              | ERR s' o' => (iberr b : R unit) s' o'
               | r => r end) ;;
-  (u <- flip ;; when u (_ <- ih_of ;; need_ibcontrol ;; (c <- flip ;; if c then ret tt else iberr))) ;;
-  _ <- ih_of ;; need_ibcontrol ;; (c <- flip ;; if c then ret tt else iberr) ;;
-  _ <- ih_of ;; need_ibcontrol ;; (c <- flip ;; if c then ret tt else iberr) ;;
-  (u <- flip ;; when u (need_ibcontrol ;; check)) ;;             (* Control.isAlphanumeric(Control.CompanyIdentification) *)
-  iat_is_batch_entry_count ;;
-  (t <- flip ;; when t (for_iat_entries (fun _ => c <- flip ;; if c then ret tt else iberr))) ;;  (* isSequenceAscending *)
-  (for_iat_entries (fun _ => ret tt) ;;                          (* isBatchAmount *)
-   need_ibcontrol ;; (c <- flip ;; if c then ret tt else iberr) ;;
-   need_ibcontrol ;; (c <- flip ;; if c then ret tt else iberr)) ;;
-  (for_iat_entries (fun _ => ret tt) ;; need_ibcontrol ;; (c <- flip ;; if c then ret tt else iberr)) ;;   (* isEntryHash *)
+  (u <- flip ;; when u (_ <- ih_of b ;; need_ibcontrol b ;; (c <- flip ;; if c then ret tt else iberr b))) ;;
+  _ <- ih_of b ;; need_ibcontrol b ;; (c <- flip ;; if c then ret tt else iberr b) ;;
+  _ <- ih_of b ;; need_ibcontrol b ;; (c <- flip ;; if c then ret tt else iberr b) ;;
+  (u <- flip ;; when u (need_ibcontrol b ;; check)) ;;           (* Control.isAlphanumeric(Control.CompanyIdentification) *)
+  iat_is_batch_entry_count b ;;
+  (t <- flip ;; when t (for_iat_entries b (fun _ => c <- flip ;; if c then ret tt else iberr b))) ;;  (* isSequenceAscending *)
+  (for_iat_entries b (fun _ => ret tt) ;;                        (* isBatchAmount *)
+   need_ibcontrol b ;; (c <- flip ;; if c then ret tt else iberr b) ;;
+   need_ibcontrol b ;; (c <- flip ;; if c then ret tt else iberr b)) ;;
+  (for_iat_entries b (fun _ => ret tt) ;; need_ibcontrol b ;; (c <- flip ;; if c then ret tt else iberr b)) ;;   (* isEntryHash *)
   (t <- flip ;;
    when t ((by_ <- flip ;;                                       (* isTraceNumberODFI *)
-            when by_ (for_iat_entries (fun _ => _ <- ih_of ;; (c <- flip ;; if c then ret tt else iberr)))) ;;
-           iat_is_addenda_sequence)) ;;
-  iat_is_category.
+            when by_ (for_iat_entries b (fun _ => _ <- ih_of b ;; (c <- flip ;; if c then ret tt else iberr b)))) ;;
+           iat_is_addenda_sequence b)) ;;
+  iat_is_category b.
 
-Definition iat_validate : M iat_batch unit :=
-  iat_verify ;;
-  for_iat_entries (fun e =>
-    (c <- flip ;; if c then ret tt else iberr) ;;                (* len(Addenda17) > 2, len(Addenda18) > 5 *)
-    h <- ih_of ;;
-    (if scc_eqb (ih_scc h) Advices then iberr else ret tt) ;;
+Definition iat_validate (b : iat_batch) : R unit :=
+  iat_verify b ;;
+  for_iat_entries b (fun e =>
+    (c <- flip ;; if c then ret tt else iberr b) ;;              (* len(Addenda17) > 2, len(Addenda18) > 5 *)
+    h <- ih_of b ;;
+    (if scc_eqb (ih_scc h) Advices then iberr b else ret tt) ;;
     when (ie_a98 e || cat_eqb (ie_cat e) CNOC)
-      (h <- ih_of ;; (if ih_cor h then ret tt else iberr) ;; (c <- flip ;; if c then ret tt else iberr))).
+      (h <- ih_of b ;; (if ih_cor h then ret tt else iberr b) ;; (c <- flip ;; if c then ret tt else iberr b))).
 
 Definition iat_build : M iat_batch unit :=
-  _ <- ih_of ;; check ;;
   b <- get ;;
-  (match ib_entries b with [] => iberr | _ => ret tt end) ;;
-  for_iat_entries (fun e =>
+  ro (_ <- ih_of b ;; check) ;;
+  ro (match ib_entries b with [] => iberr b | _ => ret tt end) ;;
+  ro (for_iat_entries b (fun e =>
     iat_addenda_inclusion e ;;
     check ;;
-    _ <- ih_of ;; check ;;
-    (d <- flip ;; when (negb d) (_ <- ih_of ;; ret tt)) ;;
+    _ <- ih_of b ;; check ;;
+    (d <- flip ;; when (negb d) (_ <- ih_of b ;; ret tt)) ;;
     forM_ (ie_a17 e) (fun p => need p) ;;
-    forM_ (ie_a18 e) (fun p => need p)) ;;
+    forM_ (ie_a18 e) (fun p => need p))) ;;
   (* originalControl := GetControl(); nil tested; new control installed *)
-  modify (set_ib_control true) ;;
-  _ <- ih_of ;;
-  for_iat_entries (fun _ => ret tt) ;;                           (* calculateEntryHash, calculateBatchAmounts *)
-  for_iat_entries (fun _ => ret tt) ;; need_ibcontrol.           (* isBatchEntryCount: error ignored *)
+  put (set_ib_control true b) ;;
+  ro (_ <- ih_of b ;;
+      for_iat_entries b (fun _ => ret tt) ;;                     (* calculateEntryHash, calculateBatchAmounts *)
+      for_iat_entries b (fun _ => ret tt)).                      (* isBatchEntryCount: error ignored *)
 
-Definition iat_create : M iat_batch unit := iat_build ;; iat_validate.
+Definition iat_create : M iat_batch unit := iat_build ;; b <- get ;; ro (iat_validate b).
 
 (* ------------------------------------------------------------------ *)
-(* file.go — state: the file *)
+(* file.go *)
 
 (* NewBatchHeader(): SEC "", service class 0 *)
 Definition blank_header : header := mkheader SecUnknown SccOther.
@@ -696,96 +696,104 @@ Fixpoint is_adv_loop (l : list (option batch)) (o : list bool) : outcome (list (
   end.
 Definition file_is_adv : M file bool := zoom f_batches set_batches is_adv_loop.
 
-(* `for _, b := range f.Batches { m on b }` *)
+(* `for _, b := range f.Batches { … }`, read-only and with write-back *)
+Definition for_batches (f : file) (m : batch -> R unit) : R unit :=
+  forM_ (f_batches f) (fun ob => match ob with Some b => m b | None => crash end).
+Definition for_iat (f : file) (m : iat_batch -> R unit) : R unit := forM_ (f_iat f) m.
 Definition each_batch (m : M batch unit) : M file unit := zoom f_batches set_batches (traverse (on_some m)).
 Definition each_iat (m : M iat_batch unit) : M file unit := zoom f_iat set_iat (traverse m).
 
-Definition is_entry_addenda_count (adv : bool) : M file unit :=
-  (if negb adv then each_batch need_control ;; each_iat need_ibcontrol
-   else each_batch need_advcontrol) ;;
+Definition is_entry_addenda_count (adv : bool) (f : file) : R unit :=
+  (if negb adv then for_batches f need_control ;; for_iat f need_ibcontrol
+   else for_batches f need_advcontrol) ;;
   eq <- flip ;; if eq then ret tt else (u <- flip ;; if u then fail else ret tt).
 
-Definition is_file_amount (adv : bool) : M file unit :=
-  (if negb adv then each_batch (need_control ;; need_control) ;; each_iat (need_ibcontrol ;; need_ibcontrol)
-   else each_batch (need_advcontrol ;; need_advcontrol)) ;;
+Definition is_file_amount (adv : bool) (f : file) : R unit :=
+  (if negb adv then for_batches f (fun b => need_control b ;; need_control b) ;;
+                    for_iat f (fun b => need_ibcontrol b ;; need_ibcontrol b)
+   else for_batches f (fun b => need_advcontrol b ;; need_advcontrol b)) ;;
   check ;; check.
 
-Definition file_entry_hash (adv : bool) : M file unit :=
-  (if negb adv then each_batch need_control ;; each_iat need_ibcontrol
-   else each_batch need_advcontrol) ;;
+Definition file_entry_hash (adv : bool) (f : file) : R unit :=
+  (if negb adv then for_batches f need_control ;; for_iat f need_ibcontrol
+   else for_batches f need_advcontrol) ;;
   check.
 
-Definition file_sequence_ascending : M file unit :=
-  each_batch (_ <- header_of ;; c <- flip ;; if c then (a <- flip ;; if a then ret tt else fail) else ret tt).
+Definition file_sequence_ascending (f : file) : R unit :=
+  for_batches f (fun b => _ <- header_of b ;; c <- flip ;; if c then (a <- flip ;; if a then ret tt else fail) else ret tt).
 
-(* ValidateWith (Validate = ValidateWith(f.validateOpts)) *)
+(* ValidateWith (Validate = ValidateWith(f.validateOpts)); File.IsADV is the only part that writes *)
 Definition file_validate : M file unit :=
   run <- flip ;;                                                (* true: SkipAll not set *)
   if negb run then ret tt else
   (h <- flip ;; when h check) ;;                                (* Header.ValidateWith unless AllowMissingFileHeader *)
   adv <- file_is_adv ;;
+  f <- get ;;
   if negb adv then
-    check ;;                                                    (* Control.BatchCount *)
-    each_batch batch_validate ;;
-    (c <- flip ;; when c check) ;;                              (* Control.Validate unless AllowMissingFileControl *)
-    is_entry_addenda_count false ;;
-    is_file_amount false ;;
-    (s <- flip ;; when s file_sequence_ascending) ;;
-    file_entry_hash false
+    ro (check ;;                                                (* Control.BatchCount *)
+        for_batches f batch_validate ;;
+        (c <- flip ;; when c check) ;;                          (* Control.Validate unless AllowMissingFileControl *)
+        is_entry_addenda_count false f ;;
+        is_file_amount false f ;;
+        (s <- flip ;; when s (file_sequence_ascending f)) ;;
+        file_entry_hash false f)
   else
-    each_batch (h <- header_of ;; if sec_eqb (h_sec h) ADV then ret tt else fail) ;;
-    check ;;
-    (c <- flip ;; when c check) ;;
-    is_entry_addenda_count true ;;
-    is_file_amount true ;;
-    file_entry_hash true.
+    ro (for_batches f (fun b => h <- header_of b ;; if sec_eqb (h_sec h) ADV then ret tt else fail) ;;
+        check ;;
+        (c <- flip ;; when c check) ;;
+        is_entry_addenda_count true f ;;
+        is_file_amount true f ;;
+        file_entry_hash true f).
 
-Definition create_file_adv : M file unit :=
-  each_batch (h <- header_of ;;
-              (if sec_eqb (h_sec h) ADV then ret tt else fail) ;;
-              _ <- header_of ;;                                 (* f.Batches[i].GetHeader().BatchNumber <= 1 *)
-              (r <- flip ;; when (negb r) (_ <- header_of ;; need_advcontrol)) ;;
-              need_advcontrol ;; need_advcontrol ;; need_advcontrol ;; need_advcontrol ;; need_advcontrol).
+(* createFileADV / Create write batch numbers and the file control: data only *)
+Definition create_file_adv (f : file) : R unit :=
+  for_batches f (fun b =>
+    h <- header_of b ;;
+    (if sec_eqb (h_sec h) ADV then ret tt else fail) ;;
+    _ <- header_of b ;;                                         (* f.Batches[i].GetHeader().BatchNumber <= 1 *)
+    (r <- flip ;; when (negb r) (_ <- header_of b ;; need_advcontrol b)) ;;
+    need_advcontrol b ;; need_advcontrol b ;; need_advcontrol b ;; need_advcontrol b ;; need_advcontrol b).
 
-(* Create *)
 Definition file_create : M file unit :=
   run <- flip ;;
+  f0 <- get ;;
   when run
     ((h <- flip ;; when h check) ;;
      z <- flip ;;                                               (* true: AllowZeroBatches not set *)
-     f <- get ;;
-     when z (match f_batches f, f_iat f with [], [] => fail | _, _ => ret tt end)) ;;
+     when z (match f_batches f0, f_iat f0 with [], [] => fail | _, _ => ret tt end)) ;;
   adv <- file_is_adv ;;
+  f <- get ;;
   if negb adv then
-    each_batch (_ <- header_of ;;
-                (r <- flip ;; when (negb r) (_ <- header_of ;; need_control)) ;;
-                need_control ;; need_control ;; need_control ;; need_control ;; need_control) ;;
-    each_iat (_ <- ih_of ;;
-              (r <- flip ;; when (negb r) (_ <- ih_of ;; need_ibcontrol)) ;;
-              need_ibcontrol ;; need_ibcontrol ;; need_ibcontrol ;; need_ibcontrol ;; need_ibcontrol)
-  else create_file_adv.
+    ro (for_batches f (fun b =>
+          _ <- header_of b ;;
+          (r <- flip ;; when (negb r) (_ <- header_of b ;; need_control b)) ;;
+          need_control b ;; need_control b ;; need_control b ;; need_control b ;; need_control b) ;;
+        for_iat f (fun b =>
+          _ <- ih_of b ;;
+          (r <- flip ;; when (negb r) (_ <- ih_of b ;; need_ibcontrol b)) ;;
+          need_ibcontrol b ;; need_ibcontrol b ;; need_ibcontrol b ;; need_ibcontrol b ;; need_ibcontrol b))
+  else ro (create_file_adv f).
 
 (* writer.go: Writer.Write; every writeLine may return the error of the io.Writer.
    writeLine(x) calls x.String(): the String methods of headers, controls and entries read their
    receiver, those of the addenda records return "" for a nil receiver. *)
-Definition write_batch (adv : bool) : M file unit :=
-  each_batch (
-    _ <- header_of ;; check ;;                                  (* writeLine(batch.GetHeader()) *)
-    (if negb adv then for_entries (fun _ => check ;; check)
-     else for_adv_entries (fun _ => check ;; check)) ;;
-    h <- header_of ;;                                           (* batch.GetHeader().StandardEntryClassCode != ADV *)
-    (if negb (sec_eqb (h_sec h) ADV) then need_control else need_advcontrol) ;; check).
+Definition write_batch (adv : bool) (f : file) : R unit :=
+  for_batches f (fun b =>
+    _ <- header_of b ;; check ;;                                (* writeLine(batch.GetHeader()) *)
+    (if negb adv then for_entries b (fun _ => check ;; check)
+     else for_adv_entries b (fun _ => check ;; check)) ;;
+    h <- header_of b ;;                                         (* batch.GetHeader().StandardEntryClassCode != ADV *)
+    (if negb (sec_eqb (h_sec h) ADV) then need_control b else need_advcontrol b) ;; check).
 
-Definition write_iat : M file unit :=
-  each_iat (_ <- ih_of ;; check ;; for_iat_entries (fun _ => check ;; check) ;; need_ibcontrol ;; check).
+Definition write_iat (f : file) : R unit :=
+  for_iat f (fun b => _ <- ih_of b ;; check ;; for_iat_entries b (fun _ => check ;; check) ;; need_ibcontrol b ;; check).
 
 Definition file_write (bypass : bool) : M file unit :=
   when (negb bypass) file_validate ;;
   check ;;                                                      (* writeLine(&file.Header) *)
   adv <- file_is_adv ;;
-  write_batch adv ;;
-  write_iat ;;
-  check ;; check.
+  f <- get ;;
+  ro (write_batch adv f ;; write_iat f ;; check ;; check).
 
 (* MarshalJSON: json.Marshal of the struct; encoding/json writes null for nil pointers and nil
    interfaces (contract of the library) *)
@@ -796,7 +804,7 @@ Definition reverse_code (c : nat) : nat :=
   if Nat.eqb c 52 then 55 else if is_credit c then c + 5
   else if Nat.eqb c 55 then 52 else if is_debit c then c - 5 else c.
 
-Fixpoint reverse_entries (l : list (option entry)) : M batch (list (option entry) * (bool * bool)) :=
+Fixpoint reverse_entries (l : list (option entry)) : R (list (option entry) * (bool * bool)) :=
   match l with
   | [] => ret ([], (false, false))
   | None :: _ => crash                                          (* entries[j].TransactionCode *)
@@ -808,17 +816,15 @@ Fixpoint reverse_entries (l : list (option entry)) : M batch (list (option entry
   end.
 
 Definition reversal_batch : M batch unit :=
-  h <- header_of ;;                                             (* bh.CompanyEntryDescription = "REVERSAL" *)
   b <- get ;;
-  r <- reverse_entries (b_entries b) ;;
+  h <- ro (header_of b) ;;                                      (* bh.CompanyEntryDescription = "REVERSAL" *)
+  r <- ro (reverse_entries (b_entries b)) ;;
   let '(es, (has_credits, has_debits)) := r in
-  modify (set_entries es) ;;
-  modify (set_control true) ;;                                  (* bc == nil → NewBatchControl(); SetControl(bc) *)
+  (* bc == nil → NewBatchControl(); SetHeader(bh); SetControl(bc) *)
   let scc' := if has_credits && has_debits then Mixed else if has_debits then Debits
               else if has_credits then Credits else h_scc h in
-  modify (set_header (Some (mkheader (h_sec h) scc'))) ;;
-  b' <- get ;;
-  match b_kind b' with KBase => build | _ => ret tt end.        (* type assertion to *Batch → bb.build() *)
+  put (set_header (Some (mkheader (h_sec h) scc')) (set_control true (set_entries es b))) ;;
+  match b_kind b with KBase => build | _ => ret tt end.         (* type assertion to *Batch → bb.build() *)
 
 Definition file_reversal : M file unit := each_batch reversal_batch ;; file_create.
 
@@ -828,7 +834,10 @@ Definition each_present_batch (m : M batch unit) : M file unit :=
   zoom f_batches set_batches
     (traverse (fun x o => match x with None => OK tt None o | Some _ => on_some m x o end)).
 Definition batches_create : M file unit := each_present_batch (try batch_create) ;; each_iat (try iat_create).
-Definition batches_validate : M file unit := each_present_batch (try batch_validate) ;; each_iat (try iat_validate).
+Definition batches_validate : M file unit :=
+  f <- get ;;
+  ro (forM_ (f_batches f) (fun ob => match ob with None => ret tt | Some b => try (batch_validate b) end) ;;
+      for_iat f (fun b => try (iat_validate b))).
 
 (* ------------------------------------------------------------------ *)
 (* NewBatch / AddBatch and the operations that build new files *)
@@ -842,156 +851,126 @@ Definition new_batch (h : header) : option batch :=
 Definition new_file : file := mkfile [] [].
 
 (* File.AddBatch: nil test, then batch.Category() *)
-Definition add_batch (ob : option batch) : M file unit :=
+Definition add_batch (ob : option batch) (f : file) : R file :=
   match ob with
-  | None => ret tt
-  | Some b =>
-      r <- local b batch_category ;;
-      modify (fun f => set_batches (f_batches f ++ [Some (snd r)]) f)
+  | None => ret f
+  | Some b => batch_category b ;; ret (set_batches (f_batches f ++ [Some b]) f)
   end.
 
 (* NewIATBatch(bh): header (a fresh one when nil) and control installed *)
 Definition new_iat_batch (h : iat_header) : iat_batch := mkib (Some h) true [].
+Definition add_iat (b : iat_batch) (f : file) : file := set_iat (f_iat f ++ [b]) f.
 
-(* File.SegmentFile *)
-Definition segment_std_batch (b : batch) (h : header) (cf df : file) : M file (file * file) :=
-  (* creditBatch, _ = NewBatch(cbh); debitBatch, _ = NewBatch(dbh) *)
-  let cb0 := new_batch (mkheader (h_sec h) Credits) in
-  let db0 := new_batch (mkheader (h_sec h) Debits) in
-  r <- (fix go (l : list (option entry)) (cb db : option batch) : M file (option batch * option batch) :=
-          match l with
-          | [] => ret (cb, db)
-          | None :: _ => crash                                  (* entry.TransactionCode *)
-          | Some e :: t =>
-              if is_credit (e_code e) then
-                match cb with None => fail | Some c => go t (Some (set_entries (b_entries c ++ [Some e]) c)) db end
-              else if is_debit (e_code e) then
-                match db with None => fail | Some d => go t cb (Some (set_entries (b_entries d ++ [Some e]) d)) end
-              else go t cb db
-          end) (b_entries b) cb0 db0 ;;
-  let '(cb, db) := r in
-  cf' <- (match cb with
-          | Some c => match b_entries c with
-                      | [] => ret cf
-                      | _ => r <- local_try c batch_create ;; r2 <- local cf (add_batch (Some (snd r))) ;; ret (snd r2)
-                      end
-          | None => ret cf
-          end) ;;
-  df' <- (match db with
-          | Some d => match b_entries d with
-                      | [] => ret df
-                      | _ => r <- local_try d batch_create ;; r2 <- local df (add_batch (Some (snd r))) ;; ret (snd r2)
-                      end
-          | None => ret df
-          end) ;;
-  ret (cf', df').
+(* `_ = creditBatch.Create(); creditFile.AddBatch(creditBatch)` when the new batch received entries *)
+Definition create_and_add (nonempty : bool) (ob : option batch) (f : file) : R file :=
+  match ob with
+  | Some c => if nonempty then (r <- local_try c batch_create ;; add_batch (Some (snd r)) f) else ret f
+  | None => ret f
+  end.
 
-Definition segment_adv_batch (b : batch) (h : header) (cf df : file) : M file (file * file) :=
-  let cb0 := new_batch (mkheader (h_sec h) Advices) in
-  let db0 := new_batch (mkheader (h_sec h) Advices) in
-  r <- (fix go (l : list (option adv_entry)) (cb db : option batch) : M file (option batch * option batch) :=
-          match l with
-          | [] => ret (cb, db)
-          | None :: _ => crash
-          | Some e :: t =>
-              if adv_is_credit (ae_code e) then
-                match cb with None => fail | Some c => go t (Some (set_adventries (b_adventries c ++ [Some e]) c)) db end
-              else if adv_is_debit (ae_code e) then
-                match db with None => fail | Some d => go t cb (Some (set_adventries (b_adventries d ++ [Some e]) d)) end
-              else go t cb db
-          end) (b_adventries b) cb0 db0 ;;
-  let '(cb, db) := r in
-  cf' <- (match cb with
-          | Some c => match b_adventries c with
-                      | [] => ret cf
-                      | _ => r <- local_try c batch_create ;; r2 <- local cf (add_batch (Some (snd r))) ;; ret (snd r2)
-                      end
-          | None => ret cf
-          end) ;;
-  df' <- (match db with
-          | Some d => match b_adventries d with
-                      | [] => ret df
-                      | _ => r <- local_try d batch_create ;; r2 <- local df (add_batch (Some (snd r))) ;; ret (snd r2)
-                      end
-          | None => ret df
-          end) ;;
-  ret (cf', df').
+Fixpoint split_entries (l : list (option entry)) (cb db : option batch) : R (option batch * option batch) :=
+  match l with
+  | [] => ret (cb, db)
+  | None :: _ => crash                                          (* entry.TransactionCode *)
+  | Some e :: t =>
+      if is_credit (e_code e) then
+        match cb with None => fail | Some c => split_entries t (Some (set_entries (b_entries c ++ [Some e]) c)) db end
+      else if is_debit (e_code e) then
+        match db with None => fail | Some d => split_entries t cb (Some (set_entries (b_entries d ++ [Some e]) d)) end
+      else split_entries t cb db
+  end.
 
-Fixpoint segment_batches (l : list (option batch)) (cf df : file) : M file (file * file) :=
+Fixpoint split_adv_entries (l : list (option adv_entry)) (cb db : option batch) : R (option batch * option batch) :=
+  match l with
+  | [] => ret (cb, db)
+  | None :: _ => crash
+  | Some e :: t =>
+      if adv_is_credit (ae_code e) then
+        match cb with None => fail | Some c => split_adv_entries t (Some (set_adventries (b_adventries c ++ [Some e]) c)) db end
+      else if adv_is_debit (ae_code e) then
+        match db with None => fail | Some d => split_adv_entries t cb (Some (set_adventries (b_adventries d ++ [Some e]) d)) end
+      else split_adv_entries t cb db
+  end.
+
+Definition nonempty {A} (l : list A) : bool := match l with [] => false | _ => true end.
+
+(* File.segmentFileBatches, one batch *)
+Definition segment_batch (b : batch) (cf df : file) : R (file * file) :=
+  h <- header_of b ;;                                           (* bh := batch.GetHeader(); bh.StandardEntryClassCode *)
+  if sec_eqb (h_sec h) ADV then
+    match h_scc h with
+    | Advices =>
+        r <- split_adv_entries (b_adventries b) (new_batch (mkheader (h_sec h) Advices)) (new_batch (mkheader (h_sec h) Advices)) ;;
+        cf' <- create_and_add (match fst r with Some c => nonempty (b_adventries c) | None => false end) (fst r) cf ;;
+        df' <- create_and_add (match snd r with Some d => nonempty (b_adventries d) | None => false end) (snd r) df ;;
+        ret (cf', df')
+    | _ => ret (cf, df)
+    end
+  else
+    match h_scc h with
+    | Mixed =>
+        r <- split_entries (b_entries b) (new_batch (mkheader (h_sec h) Credits)) (new_batch (mkheader (h_sec h) Debits)) ;;
+        cf' <- create_and_add (match fst r with Some c => nonempty (b_entries c) | None => false end) (fst r) cf ;;
+        df' <- create_and_add (match snd r with Some d => nonempty (b_entries d) | None => false end) (snd r) df ;;
+        ret (cf', df')
+    | Credits => cf' <- add_batch (Some b) cf ;; ret (cf', df)
+    | Debits => df' <- add_batch (Some b) df ;; ret (cf, df')
+    | _ => ret (cf, df)
+    end.
+
+Fixpoint segment_batches (l : list (option batch)) (cf df : file) : R (file * file) :=
   match l with
   | [] => ret (cf, df)
   | None :: _ => crash                                          (* batch.GetHeader() *)
-  | Some b :: t =>
-      match b_header b with
-      | None => crash                                           (* bh.StandardEntryClassCode *)
-      | Some h =>
-          r <- (if sec_eqb (h_sec h) ADV then
-                  match h_scc h with
-                  | Advices => segment_adv_batch b h cf df
-                  | _ => ret (cf, df)
-                  end
-                else
-                  match h_scc h with
-                  | Mixed => segment_std_batch b h cf df
-                  | Credits => r <- local cf (add_batch (Some b)) ;; ret (snd r, df)
-                  | Debits => r <- local df (add_batch (Some b)) ;; ret (cf, snd r)
-                  | _ => ret (cf, df)
-                  end) ;;
-          segment_batches t (fst r) (snd r)
-      end
+  | Some b :: t => r <- segment_batch b cf df ;; segment_batches t (fst r) (snd r)
   end.
 
-Definition add_iat (b : iat_batch) (f : file) : file := set_iat (f_iat f ++ [b]) f.
+Fixpoint split_iat_entries (l : list (option iat_entry)) (cb db : iat_batch) : R (iat_batch * iat_batch) :=
+  match l with
+  | [] => ret (cb, db)
+  | None :: _ => crash                                          (* IATEntry.TraceNumber = "" *)
+  | Some e :: t =>
+      if is_credit (ie_code e) then split_iat_entries t (set_ib_entries (ib_entries cb ++ [Some e]) cb) db
+      else if is_debit (ie_code e) then split_iat_entries t cb (set_ib_entries (ib_entries db ++ [Some e]) db)
+      else split_iat_entries t cb db
+  end.
 
-Fixpoint segment_iat (l : list iat_batch) (cf df : file) : M file (file * file) :=
+Definition iat_create_and_add (b : iat_batch) (f : file) : R file :=
+  if nonempty (ib_entries b) then (r <- local_try b iat_create ;; ret (add_iat (snd r) f)) else ret f.
+
+Fixpoint segment_iat (l : list iat_batch) (cf df : file) : R (file * file) :=
   match l with
   | [] => ret (cf, df)
   | b :: t =>
-      match ib_header b with
-      | None => crash                                           (* IATBh.ServiceClassCode *)
-      | Some h =>
-          r <- (match ih_scc h with
-                | Mixed =>
-                    let cb0 := new_iat_batch (mkih Credits (ih_cor h)) in
-                    let db0 := new_iat_batch (mkih Debits (ih_cor h)) in
-                    r <- (fix go (l : list (option iat_entry)) (cb db : iat_batch) : M file (iat_batch * iat_batch) :=
-                            match l with
-                            | [] => ret (cb, db)
-                            | None :: _ => crash                (* IATEntry.TraceNumber = "" *)
-                            | Some e :: t =>
-                                if is_credit (ie_code e) then go t (set_ib_entries (ib_entries cb ++ [Some e]) cb) db
-                                else if is_debit (ie_code e) then go t cb (set_ib_entries (ib_entries db ++ [Some e]) db)
-                                else go t cb db
-                            end) (ib_entries b) cb0 db0 ;;
-                    let '(cb, db) := r in
-                    cf' <- (match ib_entries cb with
-                            | [] => ret cf
-                            | _ => r <- local_try cb iat_create ;; ret (add_iat (snd r) cf)
-                            end) ;;
-                    df' <- (match ib_entries db with
-                            | [] => ret df
-                            | _ => r <- local_try db iat_create ;; ret (add_iat (snd r) df)
-                            end) ;;
-                    ret (cf', df')
-                | Credits => ret (add_iat b cf, df)
-                | Debits => ret (cf, add_iat b df)
-                | _ => ret (cf, df)
-                end) ;;
-          segment_iat t (fst r) (snd r)
-      end
+      h <- ih_of b ;;                                           (* IATBh.ServiceClassCode *)
+      r <- (match ih_scc h with
+            | Mixed =>
+                r <- split_iat_entries (ib_entries b) (new_iat_batch (mkih Credits (ih_cor h))) (new_iat_batch (mkih Debits (ih_cor h))) ;;
+                cf' <- iat_create_and_add (fst r) cf ;;
+                df' <- iat_create_and_add (snd r) df ;;
+                ret (cf', df')
+            | Credits => ret (add_iat b cf, df)
+            | Debits => ret (cf, add_iat b df)
+            | _ => ret (cf, df)
+            end) ;;
+      segment_iat t (fst r) (snd r)
   end.
 
-Definition nonempty_file (f : file) : bool :=
-  match f_batches f, f_iat f with [], [] => false | _, _ => true end.
+Definition nonempty_file (f : file) : bool := nonempty (f_batches f) || nonempty (f_iat f).
 
+(* Create and Validate of a file the operation built *)
+Definition finish_file (f : file) : R file :=
+  if nonempty_file f then (x <- local f (file_create ;; file_validate) ;; ret (snd x)) else ret f.
+
+(* File.SegmentFile *)
 Definition file_segment : M file (file * file) :=
   file_validate ;;
   f <- get ;;
-  r <- segment_batches (f_batches f) new_file new_file ;;
-  r <- segment_iat (f_iat f) (fst r) (snd r) ;;
-  c <- (if nonempty_file (fst r) then x <- local (fst r) (file_create ;; file_validate) ;; ret (snd x) else ret (fst r)) ;;
-  d <- (if nonempty_file (snd r) then x <- local (snd r) (file_create ;; file_validate) ;; ret (snd x) else ret (snd r)) ;;
-  ret (c, d).
+  ro (r <- segment_batches (f_batches f) new_file new_file ;;
+      r <- segment_iat (f_iat f) (fst r) (snd r) ;;
+      c <- finish_file (fst r) ;;
+      d <- finish_file (snd r) ;;
+      ret (c, d)).
 
 (* file_flattener.go: Flatten.  A "mergeable" is a batch or an IAT batch; sort.Slice calls the
    comparison (GetEntryCount: len(b.batcher.GetEntries())) only for slices of two or more elements. *)
@@ -1001,92 +980,90 @@ Definition same_header (a b : batch) : bool :=
   | _, _ => false
   end.
 
+Definition present_entries (l : list (option entry)) : list (option entry) :=
+  filter (fun e => match e with Some _ => true | None => false end) l.
+
 (* Consume into the first flattened batch with the same header the oracle allows (header signatures and
-   trace numbers are data), else Copy() *)
-Fixpoint consume_into (b : batch) (outs : list batch) : M file (option (list batch)) :=
+   trace numbers are data), else Copy().  AddEntry drops nil entries. *)
+Fixpoint consume_into (b : batch) (outs : list batch) : R (option (list batch)) :=
   match outs with
   | [] => ret None
   | x :: t =>
       if same_header b x then
-        m <- flip ;;                                            (* true: signatures differ or trace numbers collide *)
+        m <- flip ;;                                            (* true: trace numbers collide *)
         if m then (r <- consume_into b t ;; ret (option_map (cons x) r))
         else ret (Some (set_adventries (b_adventries x ++ b_adventries b)
-                          (set_entries (b_entries x ++ filter (fun e => match e with Some _ => true | None => false end) (b_entries b)) x) :: t))
+                          (set_entries (b_entries x ++ present_entries (b_entries b)) x) :: t))
       else (r <- consume_into b t ;; ret (option_map (cons x) r))
   end.
 
-Fixpoint flatten_batches (l : list (option batch)) (outs : list batch) : M file (list batch) :=
+Definition all_some {A} (l : list (option A)) : R unit :=
+  forM_ l (fun oe => match oe with None => crash | Some _ => ret tt end).
+
+Fixpoint flatten_batches (l : list (option batch)) (outs : list batch) : R (list batch) :=
   match l with
   | [] => ret outs
   | None :: _ => crash                                          (* b.batcher.GetHeader() *)
   | Some b :: t =>
-      match b_header b with
-      | None => crash                                           (* BatchHeader.String() *)
-      | Some h =>
-          nomatch <- flip ;;                                    (* true: no flattened batch has this header signature *)
-          r <- (if nomatch || negb (existsb (same_header b) outs) then ret None
-                else
-                  (* canMerge → GetTraceNumbers: entry.TraceNumber of every entry *)
-                  forM_ (b_entries b) (fun oe => match oe with None => crash | Some _ => ret tt end) ;;
-                  consume_into b outs) ;;
-          (* AddADVEntry(advEntries[i]) reads entry.Category *)
-          forM_ (b_adventries b) (fun oe => match oe with None => crash | Some _ => ret tt end) ;;
-          match r with
-          | Some outs' => flatten_batches t outs'
-          | None =>
-              (* Copy(): NewBatch(&header) — error dropped — then Consume dereferences the new Batcher *)
-              match new_batch h with
-              | None => crash
-              | Some nb =>
-                  let nb' := set_adventries (b_adventries b)
-                               (set_entries (filter (fun e => match e with Some _ => true | None => false end) (b_entries b)) nb) in
-                  flatten_batches t (outs ++ [nb'])
-              end
+      h <- header_of b ;;                                       (* BatchHeader.String() reads its receiver *)
+      nomatch <- flip ;;                                        (* true: no flattened batch has this header signature *)
+      r <- (if nomatch || negb (existsb (same_header b) outs) then ret None
+            else
+              (* canMerge → GetTraceNumbers: entry.TraceNumber of every entry *)
+              all_some (b_entries b) ;; consume_into b outs) ;;
+      match r with
+      | Some outs' =>
+          all_some (b_adventries b) ;;                          (* AddADVEntry(advEntries[i]) reads entry.Category *)
+          flatten_batches t outs'
+      | None =>
+          (* Copy(): NewBatch(&header) — error dropped — then Consume dereferences the new Batcher *)
+          match new_batch h with
+          | None => crash
+          | Some nb =>
+              all_some (b_adventries b) ;;
+              flatten_batches t (outs ++ [set_adventries (b_adventries b) (set_entries (present_entries (b_entries b)) nb)])
           end
       end
   end.
 
-Fixpoint flatten_iat (l : list iat_batch) (outs : list iat_batch) : M file (list iat_batch) :=
+Fixpoint flatten_iat (l : list iat_batch) (outs : list iat_batch) : R (list iat_batch) :=
   match l with
   | [] => ret outs
   | b :: t =>
-      match ib_header b with
-      | None => crash                                           (* b.iatBatch.Header.String() *)
-      | Some h =>
-          (* Consume: m.iatBatch.AddEntry(entry) reads entry.Category *)
-          forM_ (ib_entries b) (fun oe => match oe with None => crash | Some _ => ret tt end) ;;
-          flatten_iat t (outs ++ [mkib (Some h) true (ib_entries b)])
-      end
+      h <- ih_of b ;;                                           (* b.iatBatch.Header.String() *)
+      all_some (ib_entries b) ;;                                (* Consume: AddEntry(entry) reads entry.Category *)
+      flatten_iat t (outs ++ [mkib (Some h) true (ib_entries b)])
   end.
 
-Definition file_flatten : M file file :=
-  f <- get ;;
+(* AddToFile: Create() of every flattened batch; on error the batch is not added *)
+Fixpoint add_flattened (l : list batch) (nf : file) : R file :=
+  match l with
+  | [] => ret nf
+  | b :: t =>
+      r <- local_try b batch_create ;;
+      if fst r then (nf' <- add_batch (Some (snd r)) nf ;; add_flattened t nf') else add_flattened t nf
+  end.
+Fixpoint add_flattened_iat (l : list iat_batch) (nf : file) : R file :=
+  match l with
+  | [] => ret nf
+  | b :: t =>
+      r <- local_try b iat_create ;;
+      if fst r then add_flattened_iat t (add_iat (snd r) nf) else add_flattened_iat t nf
+  end.
+
+Definition file_flatten (f : file) : R file :=
   (* sort.Slice(originalBatches, GetEntryCount) *)
-  when (1 <? length (f_batches f) + length (f_iat f))
-    (forM_ (f_batches f) (fun ob => match ob with None => crash | Some _ => ret tt end)) ;;
+  when (1 <? length (f_batches f) + length (f_iat f)) (all_some (f_batches f)) ;;
   outs <- flatten_batches (f_batches f) [] ;;
   iouts <- flatten_iat (f_iat f) [] ;;
-  (* AddToFile: Create() of every flattened batch; on error the batch is not added *)
-  nf <- (fix go (l : list batch) (nf : file) : M file file :=
-           match l with
-           | [] => ret nf
-           | b :: t =>
-               r <- local_try b batch_create ;;
-               if fst r then (r2 <- local nf (add_batch (Some (snd r))) ;; go t (snd r2)) else go t nf
-           end) outs new_file ;;
-  nf <- (fix go (l : list iat_batch) (nf : file) : M file file :=
-           match l with
-           | [] => ret nf
-           | b :: t =>
-               r <- local_try b iat_create ;;
-               if fst r then go t (add_iat (snd r) nf) else go t nf
-           end) iouts nf ;;
+  nf <- add_flattened outs new_file ;;
+  nf <- add_flattened_iat iouts nf ;;
   r <- local nf (file_create ;; file_validate) ;;
   check ;; check ;; check ;;                                    (* sanity checks on the (value) file controls *)
   ret (snd r).
 
-(* merge.go: MergeFiles(files).  State: the list of incoming files (nil elements allowed). *)
-Fixpoint merge_add (l : list (option batch)) (outs : list batch) : M (list (option file)) (list batch) :=
+(* merge.go: MergeFiles(files); nil elements allowed in the argument *)
+Fixpoint merge_add (l : list (option batch)) (outs : list batch) : R (list batch) :=
   match l with
   | [] => ret outs
   | None :: _ => crash                                          (* incoming.Batches[j].GetHeader() *)
@@ -1094,7 +1071,7 @@ Fixpoint merge_add (l : list (option batch)) (outs : list batch) : M (list (opti
       match b_header b with
       | None => fail                                            (* "batch[%d] has nil BatchHeader" *)
       | Some h =>
-          forM_ (b_entries b) (fun oe => match oe with None => crash | Some _ => ret tt end) ;;   (* entries[m].TraceNumber *)
+          all_some (b_entries b) ;;                             (* entries[m].TraceNumber *)
           match b_entries b with
           | [] => merge_add t outs
           | es => merge_add t (outs ++ [mkbatch (KSec (h_sec h)) (Some h) true false false es []])
@@ -1102,37 +1079,35 @@ Fixpoint merge_add (l : list (option batch)) (outs : list batch) : M (list (opti
       end
   end.
 
-Fixpoint merge_files_add (l : list (option file)) (outs : list batch) : M (list (option file)) (list batch) :=
+Fixpoint merge_files_add (l : list (option file)) (outs : list batch) : R (list batch) :=
   match l with
   | [] => ret outs
   | None :: _ => crash                                          (* incoming.Header *)
   | Some f :: t => outs' <- merge_add (f_batches f) outs ;; merge_files_add t outs'
   end.
 
-Definition merge_files : M (list (option file)) (option file) :=
-  fs <- get ;;
+(* convertToFiles: NewBatch per merged batch (error returned), AddEntry, Create, AddBatch, file.Create *)
+Fixpoint merge_convert (l : list batch) (nf : file) : R file :=
+  match l with
+  | [] => ret nf
+  | b :: t =>
+      h <- header_of b ;;
+      match new_batch h with
+      | None => fail
+      | Some nb =>
+          r <- local (set_entries (b_entries b) nb) batch_create ;;
+          nf' <- add_batch (Some (snd r)) nf ;;
+          merge_convert t nf'
+      end
+  end.
+
+Definition merge_files (fs : list (option file)) : R (option file) :=
   match fs with
   | [] => ret None
   | None :: _ => crash                                          (* incoming[0].Header *)
   | Some _ :: _ =>
       outs <- merge_files_add fs [] ;;
-      (* convertToFiles: NewBatch per merged batch (error returned), AddEntry, Create, AddBatch, file.Create *)
-      nf <- (fix go (l : list batch) (nf : file) : M (list (option file)) file :=
-               match l with
-               | [] => ret nf
-               | b :: t =>
-                   match b_header b with
-                   | None => crash
-                   | Some h =>
-                       match new_batch h with
-                       | None => fail
-                       | Some nb =>
-                           r <- local (set_entries (b_entries b) nb) batch_create ;;
-                           r2 <- local nf (add_batch (Some (snd r))) ;;
-                           go t (snd r2)
-                       end
-                   end
-               end) outs new_file ;;
+      nf <- merge_convert outs new_file ;;
       match f_batches nf with
       | [] => ret None
       | _ => r <- local nf file_create ;; ret (Some (snd r))
@@ -1154,8 +1129,8 @@ Definition run_op (x : op) : M file unit :=
   | OWriteBypass => file_write true
   | OMarshal => file_marshal
   | OSegment => _ <- file_segment ;; ret tt
-  | OFlatten => _ <- file_flatten ;; ret tt
-  | OMerge => f <- get ;; _ <- local [Some f] merge_files ;; ret tt
+  | OFlatten => f <- get ;; _ <- ro (file_flatten f) ;; ret tt
+  | OMerge => f <- get ;; _ <- ro (merge_files [Some f]) ;; ret tt
   | OReversal => file_reversal
   | OBatchCreate => batches_create
   | OBatchValidate => batches_validate
@@ -1166,12 +1141,12 @@ Definition run_op (x : op) : M file unit :=
 Fixpoint run_ops (xs : list op) : M file unit :=
   match xs with [] => ret tt | x :: t => try (run_op x) ;; run_ops t end.
 
-(* … and on the file an operation returned *)
+(* … or on the file the operation returned (SegmentFile: the credit file) *)
 Definition run_op_result (x : op) : M file unit :=
   match x with
   | OSegment => r <- file_segment ;; put (fst r)
-  | OFlatten => r <- file_flatten ;; put r
-  | OMerge => f <- get ;; r <- local [Some f] merge_files ;; (match fst r with Some g => put g | None => ret tt end)
+  | OFlatten => f <- get ;; r <- ro (file_flatten f) ;; put r
+  | OMerge => f <- get ;; r <- ro (merge_files [Some f]) ;; (match r with Some g => put g | None => ret tt end)
   | _ => run_op x
   end.
 Fixpoint run_ops_result (xs : list op) : M file unit :=
